@@ -266,6 +266,8 @@ fn main() {
         }
     };
 
+    let listener_shutdown = shutdown.clone();
+
     #[allow(clippy::await_holding_lock)]
     let interrupt_task = async move {
         tokio::signal::ctrl_c().await.unwrap();
@@ -273,10 +275,17 @@ fn main() {
         shutdown.lock().unwrap().completion().await
     };
 
+    #[allow(clippy::await_holding_lock)]
     let exit_code = rt.block_on(async move {
         tokio::select! {
             listen_result = listen_task => match listen_result {
-                Ok(()) => 0,
+                Ok(()) => {
+                    // The listener returns as soon as it observes the shutdown notification,
+                    // which is before the sessions have finished their graceful shutdowns
+                    // (and drops the pending `interrupt_task`), so wait for them here
+                    listener_shutdown.lock().unwrap().completion().await;
+                    0
+                }
                 Err(e) => {
                     error!("Error while listening IO events: {}", e);
                     1
